@@ -30,14 +30,14 @@ func TestMain(m *testing.M) {
 }
 
 var recPool = ev.New("C10", "pool-invariants",
-	"real chain + real TxPool wired like server.go + the repository's own netsync block-notification handler; histories of 10-60 generated actions: ProcessTransaction / MaybeAcceptTransaction / CheckMempoolAcceptance / RemoveTransaction(+-redeemers) / RemoveDoubleSpends / ProcessOrphans / RemoveOrphan(sByTag) / mine a block (pool subset, conflicting, unrelated) / reorganise; "+
+	"real chain + real TxPool wired like server.go + the repository's own netsync block-notification handler; histories of 10-60 generated actions: ProcessTransaction / MaybeAcceptTransaction / CheckMempoolAcceptance / RemoveTransaction(+-redeemers) / RemoveDoubleSpends / ProcessOrphans / RemoveOrphan(sByTag) / mine a block (pool subset, conflicting, unrelated, a known unpooled transaction such as an orphan with its ancestors) / reorganise; "+
 		"transactions from a graph generator (inputs drawn from: confirmed coins, coins already spent by a pooled tx (conflict), outputs of pooled txs (chains/fans), outputs of not-yet-submitted txs (orphans), immature coinbases, coins spent in the chain; P2PKH / P2WPKH / anyone-can-spend / OP_RETURN outputs; explicit and inherited RBF signalling; fees at the relay and replacement boundaries; lock times and relative locks); "+
 		"policies: AcceptNonStd, RejectReplacement, MaxOrphanTxs in {0,3,100}, MaxOrphanTxSize, MinRelayTxFee, DisableRelayPriority, MaxTxVersion; "+
 		"oracle after every step from public observers only: I1 no outpoint spent twice, I2 every input unspent in the chain or created by a pooled tx, I3 CheckSpend == pooled spender for every outpoint of the universe, I4 all pool views agree, "+
 		"I5 pool in dependency order + coinbase passes CheckConnectBlockTemplate while height/median time have not moved backwards since admission, I6 rejected submissions and dry runs leave pool and orphans unchanged, "+
 		"I7 accepted replacement evicts exactly conflicts+descendants (<=100), pays >= their fees + relay fee at a strictly higher fee rate than each, all evicted signalled, I8 orphan bounds; "+
 		"non-trivial = history has an accepted replacement, a rejected replacement, an orphan promotion, a block connect removing pooled txs or conflicts, or a disconnect re-admitting txs; distinct by history hash",
-	"replacement-accepted", "replacement-rejected", "orphan-promoted", "block-removed-pooled", "block-removed-conflict", "reorg-readmitted", "plain")
+	"replacement-accepted", "replacement-rejected", "orphan-promoted", "block-removed-pooled", "block-removed-conflict", "block-confirmed-orphan", "reorg-readmitted", "plain")
 
 type world struct {
 	t      *rapid.T
@@ -458,7 +458,7 @@ func TestPoolInvariants(t *testing.T) {
 			}
 		}
 		cl := "plain"
-		for _, k := range []string{"replacement-accepted", "replacement-rejected", "orphan-promoted", "block-removed-conflict", "block-removed-pooled", "reorg-readmitted"} {
+		for _, k := range []string{"replacement-accepted", "replacement-rejected", "orphan-promoted", "block-removed-conflict", "block-removed-pooled", "block-confirmed-orphan", "reorg-readmitted"} {
 			if w.events[k] {
 				if cl == "plain" {
 					cl = k
@@ -711,6 +711,73 @@ func (w *world) step(s int) {
 					txs, desc = []*wire.MsgTx{tx}, "a fresh tx "+short(tx.TxHash())
 				}
 			}
+		case 2: // a known transaction that is not pooled (an orphan, a rejected or an evicted one) with its unconfirmed ancestors
+			var cands []*wire.MsgTx
+			for _, tx := range e.Order {
+				if !before.pool[tx.TxHash()] {
+					cands = append(cands, tx)
+				}
+			}
+			if len(cands) > 0 {
+				top := cands[pe.Uniform(t, len(cands), "unpooled")]
+				inBlock := map[chainhash.Hash]bool{}
+				var add func(tx *wire.MsgTx)
+				add = func(tx *wire.MsgTx) {
+					if inBlock[tx.TxHash()] {
+						return
+					}
+					inBlock[tx.TxHash()] = true
+					for _, ti := range tx.TxIn {
+						if par, ok := e.Known[ti.PreviousOutPoint.Hash]; ok {
+							if _, confirmed := e.Tip().Utxo[ti.PreviousOutPoint]; !confirmed {
+								add(par)
+							}
+						}
+					}
+					txs = append(txs, tx)
+				}
+				add(top)
+				if rapid.Bool().Draw(t, "withDescendants") {
+					// known spenders of the block's outputs, first come first served per outpoint
+					spent := map[wire.OutPoint]bool{}
+					for _, tx := range txs {
+						for _, ti := range tx.TxIn {
+							spent[ti.PreviousOutPoint] = true
+						}
+					}
+					for grew := true; grew; {
+						grew = false
+						for _, tx := range e.Order {
+							if inBlock[tx.TxHash()] {
+								continue
+							}
+							ok, child := true, false
+							for _, ti := range tx.TxIn {
+								if spent[ti.PreviousOutPoint] {
+									ok = false
+								}
+								if inBlock[ti.PreviousOutPoint.Hash] {
+									child = true
+								} else if _, confirmed := e.Tip().Utxo[ti.PreviousOutPoint]; !confirmed {
+									ok = false
+								}
+							}
+							if ok && child {
+								inBlock[tx.TxHash()] = true
+								txs = append(txs, tx)
+								for _, ti := range tx.TxIn {
+									spent[ti.PreviousOutPoint] = true
+								}
+								grew = true
+							}
+						}
+					}
+				}
+				desc = fmt.Sprintf("unpooled %s (orphan=%v) with %d ancestors / descendants", short(top.TxHash()), before.orphans[top.TxHash()], len(txs)-1)
+				if before.orphans[top.TxHash()] {
+					w.events["block-confirmed-orphan"] = true
+				}
+			}
 		default:
 			desc = "empty"
 		}
@@ -766,6 +833,12 @@ func (w *world) step(s int) {
 		}
 		if e.Tip() != cur {
 			w.fail("%s: VERIF-INFRA reorganisation did not happen", name)
+		}
+		for it := tip; it != fork; it = it.Parent {
+			for _, tx := range it.Msg.Transactions[1:] {
+				h := tx.TxHash()
+				w.log("%s: disconnected node%d held %s: now pooled=%v orphan=%v", name, it.Idx, short(h), e.Pool.IsTransactionInPool(&h), e.Pool.IsOrphanInPool(&h))
+			}
 		}
 		w.registerChainCoins()
 		// known finding (listed): btcd does not re-evaluate the BIP68 locks of pooled transactions
